@@ -909,11 +909,10 @@ fn scan_files(ctx: &GroupCtx<'_>) -> Vec<Vec<FileInfo>> {
     let files: Vec<_> = file_collector.into_iter().map(|r| r.into_inner()).collect();
 
     let file_count: usize = files.iter().map(|v| v.len()).sum();
-    let total_size: u64 = files.iter().flat_map(|v| v.iter().map(|i| i.len.0)).sum();
+    let total_size: FileLen = files.iter().flat_map(|v| v.iter().map(|i| i.len)).sum();
     ctx.log.info(format!(
         "Found {} ({}) files matching selection criteria",
-        file_count,
-        FileLen(total_size)
+        file_count, total_size
     ));
     files
 }
